@@ -46,8 +46,9 @@ extern unsigned char hm_last_msg[HMAX];
 extern size_t hm_last_len;
 extern unsigned hm_nfinal;
 
-/* ---- inplace_alloc.c -------------------------------------------------------------------- */
-extern void *ip_ptr; extern size_t ip_size; extern int ip_over; extern unsigned ip_nrealloc;
+/* ---- padalloc.c ------------------------------------------------------------------------- */
+extern size_t pa_lsize[256]; extern unsigned char pa_managed[256]; extern int pa_over; extern unsigned pa_nrealloc;
+size_t pa_size_of(const void *p); int pa_is_managed(const void *p);
 
 /* ---- zstd stub --------------------------------------------------------------------------- */
 extern int zs_strategy_set, zs_level_set, zs_compress_calls, zs_compress_before_strategy;
